@@ -360,8 +360,11 @@ class Pool:
 
     def __init__(self, world, size=1, order="reversed"):
         self.w, self.size, self.order = world, size, order
+        self.closed = False
 
     def map(self, f, tasks):
+        if self.closed:
+            raise ValueError("Pool not running")
         self.w.call("pool.map")
         tasks = list(tasks)
         order = list(range(len(tasks)))
@@ -375,7 +378,8 @@ class Pool:
         return res
 
     def close(self):
-        pass
+        self.closed = True
+        self.w.event("pool.close")
 
 
 # ------------------------------------------------------------------------------------------
@@ -472,7 +476,8 @@ class SymRng:
         n = int(size) if size is not None else 1
         d = len(mean)
         cells = [[core.fresh("real", "mvn") for _ in range(d)] for _ in range(n)]
-        self.draws.append(("mvn", mean, cov, n, cells))
+        self.draws.append(("mvn", mean, cov, n, cells, self.pos))
+        self.w.event("mvn", self.key, self.pos)
         self.pos += 1
         out = symnp.SymArray(symnp._obj(cells), symnp._F8)
         return out if size is not None else out[0]
@@ -492,12 +497,26 @@ def numpy_random_module(world):
         return SymRng(world, ("seed", str(seed)))
     mod.default_rng = default_rng
 
-    def _legacy(name):
+    def _global():
+        return SymRng(world, ("numpy-global-state",))
+
+    def _legacy(name, impl):
         def f(*a, **k):
-            world.global_random_touched.append("np.random.%s (global state)" % name)
+            world.global_random_touched.append("np.random.%s (numpy's global random state)" % name)
+            return impl(_global(), *a, **k)
+        return f
+    mod.uniform = _legacy("uniform", lambda g, low=0.0, high=1.0, size=None: g.uniform(low, high, size))
+    mod.random = _legacy("random", lambda g, size=None: g.random(size))
+    mod.rand = _legacy("rand", lambda g, *shape: g.random(shape[0] if shape else None))
+    mod.choice = _legacy("choice", lambda g, a, size=None, replace=True, p=None: g.choice(a, size=size, replace=replace))
+    mod.permutation = _legacy("permutation", lambda g, x: g.permutation(x))
+    mod.multivariate_normal = _legacy("multivariate_normal", lambda g, mean, cov, size=None: g.multivariate_normal(mean, cov, size))
+
+    def _unmodelled(name):
+        def f(*a, **k):
+            world.global_random_touched.append("np.random.%s (numpy's global random state)" % name)
             raise UnsupportedByShim("legacy global numpy random function np.random.%s" % name)
         return f
-    for nm in ("seed", "rand", "randn", "uniform", "random", "choice", "shuffle", "permutation", "normal",
-               "get_state", "set_state", "randint", "multivariate_normal"):
-        setattr(mod, nm, _legacy(nm))
+    for nm in ("seed", "randn", "shuffle", "normal", "get_state", "set_state", "randint"):
+        setattr(mod, nm, _unmodelled(nm))
     return mod
